@@ -40,6 +40,9 @@ func NewPRNG() (*KeyedPRNG, error) {
 	if _, err := rand.Read(key); err != nil {
 		return nil, fmt.Errorf("crypto rand error: %w", err)
 	}
+	if k := verifKey(); k != nil { // verif hook: replayable randomness (no-op without the verif build tag)
+		key = k
+	}
 	prng.key = key
 	prng.xof, err = blake2b.NewXOF(blake2b.OutputLengthUnknown, key)
 	return prng, err
